@@ -22,5 +22,6 @@ def run(ctx):
         ctx.guard("C19", "roll-forms", lambda: fold.primitive_forms(ctx, prog, "RollingHash"))
         ctx.guard("C19", "roll-step", lambda: rolling.step_shape(ctx, prog))
         ctx.guard("C19", "summaries", lambda: summary.check(ctx, prog, 'generate::hashes::', floor=6))
+        ctx.guard("C19", "path summaries", lambda: summary.check_paths(ctx, prog, 'generate::hashes::', floor=0))
         ctx.guard("C19", "traits", lambda: vis.trait_census(ctx, prog, scope='hashes::'))
     return ctx.finish(EXPL, ["u32 wrapping_* methods have their documented meaning", "rustc's const evaluation of FNV_TABLE"])
